@@ -22,7 +22,7 @@ ASSUMPTIONS = ['no byte-identical barcode twice in a generated file; for shipped
                'generated cell indices contain a character outside ACGTNX (column-order sniffing is documented to be ambiguous otherwise) or are plain integers',
                'Hamming distance is defined between strings of equal length only']
 MIN_NONTRIVIAL = {'quick': 5000, 'thorough': 1000000}
-REQUIRED_MONITORS = ['history:touch_before_first_lookup', 'hook:getIndexCorrectedBarcodeAndHammingDistance', 'oracle:assigned', 'oracle:tie', 'oracle:too_far']
+REQUIRED_MONITORS = ['history:touch_before_first_lookup', 'history:first_load_failed_then_retried', 'history:first_load_raised', 'hook:getIndexCorrectedBarcodeAndHammingDistance', 'oracle:assigned', 'oracle:tie', 'oracle:too_far']
 EXHAUSTIVE = {'quick': False, 'thorough': False}
 SHARD_TIMEOUT = {'quick': 600, 'thorough': 3600}
 
@@ -129,6 +129,7 @@ def gen_cases(tier, seed):
                       'gz': r.random() < 0.3,
                       'load': r.choice(['eager', 'lazy_alias', 'lazy_star', 'add_expand']),
                       'index_kind': r.choice(['int', 'name']),
+                      'first_load_fault': r.choice([None, None, 'missing', 'truncated', 'emfile']),
                       'seed': seed})
     ships = []
     base = os.path.join(os.environ.get('SCMO_REPO', '/repo'), 'singlecellmultiomics', 'modularDemultiplexer')
@@ -248,6 +249,50 @@ def _generated(case, acc, hook, bfp):
             for bc, idx in truth:
                 p.addBarcode(alias, barcode=bc, index=idx)
             p.expand(k, alias=alias)
+        # history: the first attempt to load a promised (lazy) file fails transiently - the file is briefly missing, unreadable or
+        # still being written - and the lookup is repeated on the same parser once the file is back
+        if case['load'] in ('lazy_alias', 'lazy_star') and case.get('first_load_fault'):
+            fault = case['first_load_fault']
+            acc.count('history:first_load_failed_then_retried')
+            whole = open(path, 'rb').read()
+            if fault == 'truncated' and not case['gz']:
+                fault = 'missing'
+            restore = None
+            if fault == 'missing':
+                os.rename(path, path + '.away')
+            elif fault == 'truncated':
+                with open(path, 'wb') as f:
+                    f.write(whole[:max(1, len(whole) // 2)])
+            else:
+                # the process is out of file descriptors when the file is opened
+                import types
+                import errno
+
+                def no_handles(*a, **kw):
+                    raise OSError(errno.EMFILE, 'Too many open files (injected)')
+                real_gzip = bfp.gzip
+                bfp.open = no_handles
+                bfp.gzip = types.SimpleNamespace(open=no_handles)
+
+                def restore():
+                    del bfp.open
+                    bfp.gzip = real_gzip
+            failed = False
+            try:
+                p.getIndexCorrectedBarcodeAndHammingDistance(wl[0], alias)
+                hook.calls.pop()
+            except Exception:
+                failed = True
+            finally:
+                if restore:
+                    restore()
+            if failed:
+                acc.count('history:first_load_raised')
+            if fault == 'missing':
+                os.rename(path + '.away', path)
+            elif fault == 'truncated':
+                with open(path, 'wb') as f:
+                    f.write(whole)
         # the real command line lists the strategies (getTargetCount) before the first lookup; other callers read the mapping first
         touch = r.choice(['none', 'none', 'getTargetCount', 'getBarcodeMapping', 'barcodes_attr', 'decoy_lookup'])
         if touch == 'getTargetCount':
@@ -261,7 +306,8 @@ def _generated(case, acc, hook, bfp):
             p.getIndexCorrectedBarcodeAndHammingDistance('A' * L, 'decoy')
             hook.calls.pop()
         acc.count('history:touch_before_first_lookup', 0 if touch == 'none' else 1)
-        ctx = {'whitelist': truth, 'load': case['load'], 'style': case['style'], 'touched_before_lookup': touch}
+        ctx = {'whitelist': truth, 'load': case['load'], 'style': case['style'], 'touched_before_lookup': touch,
+               'first_load_fault': case.get('first_load_fault') if case['load'].startswith('lazy') else None}
         wlh = sha(truth)
         queries = [''.join(t) for t in itertools.product(ALPH, repeat=L)]
         r.shuffle(queries)  # access order matters for lazy loading: first query triggers the load
